@@ -38,6 +38,10 @@ UPSTREAM = {
     "addfield_cut": lambda t: etl.cut(etl.addfield(t, "zz", 1), "k", "j", "v", "s"),
     "select": lambda t: etl.select(t, lambda r: True),
     "wrap": lambda t: etl.wrap(t),
+    # data rows that are petl Record objects (what records() hands out), also made with a `missing` of their own: a short
+    # Record answers an absent field with THAT value wherever the row object itself is asked
+    "records": lambda t: [t[0]] + list(etl.records(t)),
+    "records_missing": lambda t: [t[0]] + list(etl.records(t, missing="zzz")),
 }
 
 
@@ -64,7 +68,12 @@ def _variant_case(draw, tier, names):
     c["buffersize"] = draw(st.sampled_from(sorted({1, 2, max(1, n - 1), max(1, n), n + 1, 2 * n + 1})))
     c["cache"] = draw(st.booleans())
     upstream_ok = not e.cells  # direct-cell entries need their own cell kinds
-    c["upstream"] = draw(st.sampled_from(sorted(UPSTREAM))) if upstream_ok and draw(st.booleans()) else "list"
+    c["upstream"] = draw(st.sampled_from(sorted(UPSTREAM) + ["records_missing"] * 2)) if upstream_ok and draw(st.booleans()) else "list"
+    if c["upstream"].startswith("records") and variant != "presorted":
+        # Record rows too short to hold the key fields (the row object answers for the absent cell)
+        for t in c["sources"]:
+            for _ in range(draw(st.integers(0, 2))):
+                t.insert(draw(st.integers(1, len(t))), t[draw(st.integers(1, len(t) - 1))][:draw(st.integers(0, 1))] if len(t) > 1 else [])
     # the other inputs get a row container of their own (list rows on one side, tuple rows or a view on the other)
     c["upstream2"] = draw(st.sampled_from(sorted(UPSTREAM))) if upstream_ok and draw(st.booleans()) else c["upstream"]
     return c
